@@ -3,7 +3,7 @@
 (* ECGroup over BigNat field elements: the same chord-and-tangent          *)
 (* definitions as ECToy, at the size of the catalogued curves.             *)
 (* A curve here is a record [p, a, b, gx, gy, n, h] of BigNat values       *)
-(* (h a TLC integer).                                                      *)
+(* (all BigNat).                                                      *)
 (***************************************************************************)
 EXTENDS Integers, Sequences, BigNat, Hash
 
@@ -24,7 +24,7 @@ ValidCurve(c) ==
     /\ BLt(c.gx, c.p) /\ BLt(c.gy, c.p) /\ ECR!OnCurve(c, G(c))
     /\ BIsProbablePrime(c.n)
     /\ ECR!MulBits(c, BitsOf(c.n), G(c)) = ECR!Inf
-    /\ B(c.h) = BDiv(BAdd(BAdd(c.p, BOne), BSqrtFloor(BMul(B(4), c.p))), c.n)
+    /\ c.h = BDiv(BAdd(BAdd(c.p, BOne), BSqrtFloor(BMul(B(4), c.p))), c.n)
     /\ c.n # c.p
 
 Secp256k1 == [p  |-> FromHex("fffffffffffffffffffffffffffffffffffffffffffffffffffffffefffffc2f"),
@@ -32,7 +32,7 @@ Secp256k1 == [p  |-> FromHex("ffffffffffffffffffffffffffffffffffffffffffffffffff
               gx |-> FromHex("79be667ef9dcbbac55a06295ce870b07029bfcdb2dce28d959f2815b16f81798"),
               gy |-> FromHex("483ada7726a3c4655da4fbfc0e1108a8fd17b448a68554199c47d08ffb10d4b8"),
               n  |-> FromHex("fffffffffffffffffffffffffffffffebaaedce6af48a03bbfd25e8cd0364141"),
-              h  |-> 1]
+              h  |-> BOne]
 \* NIST P-256 (FIPS 186-4 D.1.2.3)
 Secp256r1 == [p  |-> FromHex("ffffffff00000001000000000000000000000000ffffffffffffffffffffffff"),
               a  |-> FromHex("ffffffff00000001000000000000000000000000fffffffffffffffffffffffc"),
@@ -40,12 +40,12 @@ Secp256r1 == [p  |-> FromHex("ffffffff00000001000000000000000000000000ffffffffff
               gx |-> FromHex("6b17d1f2e12c4247f8bce6e563a440f277037d812deb33a0f4a13945d898c296"),
               gy |-> FromHex("4fe342e2fe1a7f9b8ee7eb4a7c0f9e162bce33576b315ececbb6406837bf51f5"),
               n  |-> FromHex("ffffffff00000000ffffffffffffffffbce6faada7179e84f3b9cac2fc632551"),
-              h  |-> 1]
+              h  |-> BOne]
 
 \* points in traces: {"inf": 1} or {"x": hex, "y": hex}
 PtOf(j) == IF "inf" \in DOMAIN j THEN ECR!Inf ELSE ECR!Pt(BFromBytes(FromHex(j.x)), BFromBytes(FromHex(j.y)))
 N(hexs) == BFromBytes(FromHex(hexs))
-CurveOf(j) == [p |-> N(j.p), a |-> N(j.a), b |-> N(j.b), gx |-> N(j.gx), gy |-> N(j.gy), n |-> N(j.n), h |-> j.h]
+CurveOf(j) == [p |-> N(j.p), a |-> N(j.a), b |-> N(j.b), gx |-> N(j.gx), gy |-> N(j.gy), n |-> N(j.n), h |-> N(j.h)]
 
 \* SEC 1 2.3.3 / 2.3.4 octet string <-> point, over a field of byte length plen
 PLen(c) == (BBitLen(c.p) + 7) \div 8
